@@ -18,8 +18,9 @@
 
    The answer R is a sequence of <<key, reported distance>>.  It is specified as a
    relation (ties between equal distances may be broken in any way):
-     Visible     every returned row is live, searchable and passes the filter
-     Distinct    no row twice
+     Visible     every returned row is live and passes the filter            (every mode)
+     InIndex     under fast search every returned row is covered by the index (exact modes)
+     Distinct    no row twice, at most k rows                                 (exact modes)
      DistExact   reported distance = model distance of that row        (exact modes)
      Sorted      reported distances ascending                          (exact modes)
      Count       |R| = min(k, eligible rows)                           (exact modes, pre-filter)
@@ -75,6 +76,16 @@ KthDist(S, Q) ==
      /\ Cardinality({r \in S : dm[r] < d}) < Q.k
      /\ Cardinality({r \in S : dm[r] <= d}) >= Q.k
 
+\* structural clauses: fast search stays inside the index, no row twice, at most k rows
+Shape(T, Q, hasIndex, R) ==
+  LET n == Len(R)
+      known == {i \in 1..n : R[i][1] \in Keys(T)}
+  IN (IF \E i \in known : ~Searchable(RowOf(T, R[i][1]), Q, hasIndex) THEN {"ReturnedUnindexedUnderFastSearch"} ELSE {})
+     \cup (IF Cardinality(RKeys(R)) # n THEN {"DuplicateRow"} ELSE {})
+     \cup (IF n > Q.k THEN {"MoreThanK"} ELSE {})
+\* what is merely observed (not judged) about an answer of a mode that does not claim exactness
+Observe(T, Q, hasIndex, R) == IF Q.exact THEN {} ELSE Shape(T, Q, hasIndex, R)
+
 (* Judge an answer: the set of violated clauses (empty = accepted).
    `ever` is the set of keys that ever existed (to name deleted rows).          *)
 Judge(T, ever, Q, hasIndex, R) ==
@@ -87,14 +98,15 @@ Judge(T, ever, Q, hasIndex, R) ==
       dist == [r \in T |-> Dist(Q.metric, r.vec, Q.q)]       \* evaluated once per judgement
       D(key) == dist[RowOf(T, key)]
       tol == Tol(Q.metric)
+      \* claimed in every mode
       vis == (IF \E i \in 1..n : R[i][1] \notin Keys(T) /\ R[i][1] \in ever THEN {"ReturnedDeleted"} ELSE {})
              \cup (IF \E i \in 1..n : R[i][1] \notin Keys(T) /\ R[i][1] \notin ever THEN {"ReturnedUnknownRow"} ELSE {})
              \cup (IF \E i \in known : ~Passes(RowOf(T, R[i][1]), Q) THEN {"ReturnedFilteredOut"} ELSE {})
-             \cup (IF \E i \in known : ~Searchable(RowOf(T, R[i][1]), Q, hasIndex) THEN {"ReturnedUnindexedUnderFastSearch"} ELSE {})
-      dup == IF Cardinality(ks) # n THEN {"DuplicateRow"} ELSE {}
-      over == IF n > Q.k THEN {"MoreThanK"} ELSE {}
-  IN vis \cup dup \cup over \cup
-     (IF ~Q.exact \/ vis # {} \/ dup # {} THEN {}
+      \* claimed in the exact modes (in the other modes these are reported as observations, see Observe)
+      shape == Shape(T, Q, hasIndex, R)
+  IN vis \cup
+     (IF ~Q.exact THEN {} ELSE shape) \cup
+     (IF ~Q.exact \/ vis # {} \/ shape # {} THEN {}
       ELSE
         (IF \A i \in 1..n : Abs(R[i][2] - D(R[i][1])) <= tol THEN {} ELSE {"DistanceWrong"})
         \cup (IF \A i \in 1..(n - 1) : R[i][2] <= R[i + 1][2] THEN {} ELSE {"NotSorted"})
